@@ -276,23 +276,70 @@ var dropped = []v1field{
 	{"AddSampleRateKeyToTraceField", "", func(r *kit.Rng) val { return val{Tag: "s", S: "meta.refinery.dynsampler_key"} }},
 }
 
-var samplerV1 = map[string][]v1field{
-	"DeterministicSampler": {{"SampleRate", "SampleRate", ints(1, 2, 10, 100, 5000)}},
-	"DynamicSampler": {{"SampleRate", "SampleRate", ints(1, 2, 10, 100)}, {"FieldList", "FieldList", fieldList},
-		{"UseTraceLength", "UseTraceLength", boolv}, {"ClearFrequencySec", "ClearFrequency", ints(1, 30, 60, 90, 3600)},
-		{"ClearFrequency", "ClearFrequency", durs("60s", "90s", "1m30s", "500ms")}, {"MaxKeys", "MaxKeys", ints(0, 100, 500)}},
-	"EMADynamicSampler": {{"GoalSampleRate", "GoalSampleRate", ints(1, 2, 15, 100)}, {"FieldList", "FieldList", fieldList},
-		{"UseTraceLength", "UseTraceLength", boolv}, {"AdjustmentInterval", "AdjustmentInterval", ints(1, 15, 20, 60, 90)},
-		{"Weight", "Weight", floats("0.5", "0.25", "0.9")}, {"MaxKeys", "MaxKeys", ints(0, 100, 500)},
-		{"AgeOutValue", "AgeOutValue", floats("0.5", "0.1")}, {"BurstMultiple", "BurstMultiple", floats("2", "1.5", "3")},
-		{"BurstDetectionDelay", "BurstDetectionDelay", ints(0, 3, 5)}},
-	"TotalThroughputSampler": {{"GoalThroughputPerSec", "GoalThroughputPerSec", ints(1, 100, 5000)}, {"FieldList", "FieldList", fieldList},
-		{"UseTraceLength", "UseTraceLength", boolv}, {"ClearFrequencySec", "ClearFrequency", ints(1, 10, 30, 90)},
-		{"MaxKeys", "MaxKeys", ints(0, 100)}},
-	"RulesBasedSampler": {{"CheckNestedFields", "CheckNestedFields", boolv}},
+// v1FieldsOf derives the v1 settings of a sampler from the struct the converter unmarshals into
+// (reflection, see samplerFields): the documented v1 name of a field is its v2 (yaml) name, except
+// that a ClearFrequency could also be given as integer ClearFrequencySec, and AdjustmentInterval was
+// integer seconds.  Values are non-default and non-zero.
+func v1FieldsOf(stype string) (fields []v1field, required map[string]bool) {
+	required = map[string]bool{}
+	for _, f := range samplerFields() {
+		if f.Struct != stype {
+			continue
+		}
+		name := f.YAML
+		if f.Required {
+			required[name] = true
+		}
+		var g func(*kit.Rng) val
+		switch f.Kind {
+		case "int":
+			switch {
+			case strings.Contains(name, "MaxKeys"):
+				g = ints(100, 500)
+			case strings.Contains(name, "Delay"):
+				g = ints(3, 5, 7)
+			default:
+				g = ints(2, 10, 100, 5000)
+			}
+		case "bool":
+			g = func(r *kit.Rng) val { return val{Tag: "b", N: int64(r.Pick(25, 75))} }
+		case "strs":
+			g = fieldList
+		case "float":
+			switch name { // the v2 rules validator bounds these
+			case "Weight":
+				g = floats("0.25", "0.9", "0.75")
+			case "BurstMultiple":
+				g = floats("2", "1.5", "3")
+			default: // AgeOutValue and any other fraction
+				g = floats("0.5", "0.1", "0.25")
+			}
+		case "string":
+			g = func(r *kit.Rng) val { return val{Tag: "s", S: "x"} }
+		case "dur":
+			secs := ints(1, 10, 45, 60, 90, 3600)
+			text := durs("60s", "90s", "1m30s", "500ms", "45s")
+			switch name {
+			case "ClearFrequency":
+				fields = append(fields, v1field{"ClearFrequencySec", name, secs}, v1field{"ClearFrequency", name, text})
+			case "AdjustmentInterval":
+				fields = append(fields, v1field{name, name, func(r *kit.Rng) val {
+					if r.Chance(80) {
+						return secs(r)
+					}
+					return text(r)
+				}})
+			default:
+				fields = append(fields, v1field{name, name, text})
+			}
+			continue
+		default:
+			continue // nested structure (rules, conditions, downstream samplers): generated structurally
+		}
+		fields = append(fields, v1field{name, name, g})
+	}
+	return
 }
-var required = map[string][]string{"DynamicSampler": {"SampleRate", "FieldList"}, "EMADynamicSampler": {"GoalSampleRate", "FieldList"},
-	"TotalThroughputSampler": {"GoalThroughputPerSec", "FieldList"}, "DeterministicSampler": {"SampleRate"}}
 
 func keyCase(r *kit.Rng, style int, k string) string {
 	switch style {
@@ -308,16 +355,20 @@ func keyCase(r *kit.Rng, style int, k string) string {
 }
 
 func genSamplerFields(r *kit.Rng, style int, stype string, emit func(key string, v val), get func(v2 string)) {
-	req := map[string]bool{}
-	for _, k := range required[stype] {
-		req[k] = true
+	fields, req := v1FieldsOf(stype)
+	full := r.Chance(35) // every v1 field of the sampler set
+	if r.Chance(50) {    // which of two spellings of one setting comes first must not matter
+		for i := len(fields) - 1; i > 0; i-- {
+			j := r.Intn(i + 1)
+			fields[i], fields[j] = fields[j], fields[i]
+		}
 	}
 	usedV2 := map[string]bool{}
-	for _, f := range samplerV1[stype] {
+	for _, f := range fields {
 		if usedV2[f.v2] {
 			continue
 		}
-		if !req[f.name] && !r.Chance(55) {
+		if !full && !req[f.name] && !r.Chance(60) {
 			continue
 		}
 		usedV2[f.v2] = true
@@ -328,11 +379,12 @@ func genSamplerFields(r *kit.Rng, style int, stype string, emit func(key string,
 			emit(keyCase(r, style, f.name), f.gen(r))
 		}
 	}
-	for _, f := range samplerV1[stype] {
-		if f.v2 != "" && (usedV2[f.v2] || r.Chance(30)) {
+	seen := map[string]bool{}
+	for _, f := range fields {
+		if !seen[f.v2] && (usedV2[f.v2] || r.Chance(30)) {
 			get(f.v2)
-			usedV2[f.v2] = false
 		}
+		seen[f.v2] = true
 	}
 }
 
